@@ -77,6 +77,12 @@ def JtR (N d : Nat) (out : Nat → Out α) (l : Nat) : α :=
 def JtJ (N d : Nat) (out : Nat → Out α) (l m : Nat) : α :=
   sumN N fun i => sumN d fun a => (out i).J a l * (out i).J a m
 
+/-- component `l` of `J'ᵀ W R'` with a per-item weight matrix `W i a b` (the `weight=` branch of the optimisers, which lies
+outside C09's quantifier: LM forms `J_T = J.T @ weight`, `b = -J_T @ R`; GN hands `(W J', -W R')` to the solver, whose
+normal equations carry `WᵀW` in the place of `W`). `RobustModel.loss` ignores the weight. -/
+def JtWR (N d : Nat) (W : Nat → Nat → Nat → α) (out : Nat → Out α) (l : Nat) : α :=
+  sumN N fun i => sumN d fun a => sumN d fun b => (out i).J a l * W i a b * (out i).R b
+
 /-- `kernel(r.square().sum(-1)).sum()` for one residual tensor of `N` items -/
 def lossOne (ρ : α → α) (N d : Nat) (R : Nat → Nat → α) : α :=
   sumN N fun i => ρ (normSq d (R i))
@@ -174,6 +180,10 @@ def lossKernel (ks : List (KSel κ)) (nres i : Nat) : Option (KSel κ) :=
   if i < nres then (if ks.length > 1 then ks[i]? else ks[0]?) else Option.none
 
 end plumbing
+
+/-- `RobustModel.loss` / `step` raise `IndexError` for an empty kernel list (`kernel=[]`: `self.kernel[0]`, `self.corrector[i]`);
+`lossTotal` below is only meaningful when this is `false` -/
+def emptyKernelList {κ : Type} (ks : List (KSel κ)) : Bool := ks.isEmpty
 
 /-- `RobustModel.loss`: sum over the residual tensors that enter it, each with its selected kernel.
 `ρ` interprets a selection as a function, `res j = (N, d, R)`. -/
